@@ -184,6 +184,7 @@ def run(ctx: Context) -> None:
                       f"the two consumers compose the operations in different orders", "interferometer = M @ interferometer")
 
     clause_c(ctx, m, block, th, ph)
+    clause_d(ctx, idx)
 
     # ---------------- (b) weight layout ----------------------------------------------------------------------------------------
     w = m.functions.get("get_weights_from_decomposition")
@@ -435,3 +436,253 @@ def clause_c(ctx: Context, m, block: sp.Matrix, th, ph) -> None:
                           f"the step nulls for every non-zero pivot (there the angles tend to theta = pi/2): unitaries with a zero in the pivot "
                           f"position (permutations, block-diagonal matrices) are not triangularised and the decomposition does not reproduce them",
                           f"return {th0}, {ph0}")
+
+
+# ================================================================================================ (d) Williamson: S D S^T = M
+def clause_d(ctx: Context, idx) -> None:
+    """`williamson` returns (S, D).  With the contracts of the library calls it uses - sqrtm(M) = R symmetric with R R = M, the second
+    result of a real Schur decomposition is orthogonal, a block-diagonal matrix of 2x2 identity / rot90(identity) blocks with its columns
+    permuted is orthogonal, matrices built by np.diag(f(np.diag(X))) are diagonal functions of one vector - the product S D S^T is reduced
+    in a free word algebra (O^T O = I, diagonal exponents add, R R = M) and must be the single word M.  Nothing is executed."""
+    from fractions import Fraction
+    ctx.rule("C15d", "the factors williamson returns recompose the input: S D S^T reduces to M under the contracts of sqrtm / schur / the "
+                     "orthogonal basis change and the arithmetic of diagonal matrices (free word algebra); the matrix handed to schur is "
+                     "R^-1 Omega R^-1")
+    try:
+        fn = idx.find_function("piquasso._math.decompositions", "williamson")
+    except Exception:
+        raise AnalysisError("anchor vanished: piquasso._math.decompositions.williamson")
+    params = fn.params()
+    M = params[0]
+    defs: Dict[str, ast.AST] = {}
+    unpack: Dict[str, Tuple[ast.AST, int]] = {}
+    ret = None
+    for s in ast.walk(fn.node):
+        if isinstance(s, ast.Assign) and len(s.targets) == 1:
+            t = s.targets[0]
+            if isinstance(t, ast.Name):
+                if t.id in defs:
+                    defs[t.id] = None  # type: ignore  # multiply defined: not read through
+                else:
+                    defs[t.id] = s.value
+            elif isinstance(t, ast.Tuple) and all(isinstance(x, ast.Name) for x in t.elts):
+                for k, x in enumerate(t.elts):
+                    unpack[x.id] = (s.value, k)
+        if isinstance(s, ast.Return) and s.value is not None:
+            ret = s
+
+    class Undecided(Exception):
+        pass
+
+    # a word is a list of atoms; atom = ("R", e) | ("O", name, transposed) | ("D", base, Fraction exponent) | ("M",) | ("W", text, transposed)
+    def last(e):
+        return e.func.attr if isinstance(e.func, ast.Attribute) else (dotted(e.func) or "").split(".")[-1]
+
+    def helper_is_orthogonal(call: ast.Call) -> bool:
+        """block_diag(*[identity if c else rotation for ...]) with identity = np.identity(2), rotation = np.rot90(identity)"""
+        name = (dotted(call.func) or "").split(".")[-1]
+        try:
+            h = idx.find_function("piquasso._math.decompositions", name)
+        except Exception:
+            return False
+        hdefs = {s.targets[0].id: s.value for s in ast.walk(h.node) if isinstance(s, ast.Assign) and len(s.targets) == 1 and isinstance(s.targets[0], ast.Name)}
+
+        def ortho2(e, depth=0) -> bool:
+            if isinstance(e, ast.Name) and e.id in hdefs and depth < 4:
+                return ortho2(hdefs[e.id], depth + 1)
+            if isinstance(e, ast.Call):
+                nm = last(e)
+                if nm in ("identity", "eye"):
+                    return True
+                if nm == "rot90" and e.args:
+                    return ortho2(e.args[0], depth + 1)      # a rotated permutation matrix is a permutation matrix
+            if isinstance(e, ast.IfExp):
+                return ortho2(e.body, depth) and ortho2(e.orelse, depth)
+            return False
+        for r in ast.walk(h.node):
+            if isinstance(r, ast.Return) and isinstance(r.value, ast.Call) and last(r.value) == "block_diag" and len(r.value.args) == 1 \
+                    and isinstance(r.value.args[0], ast.Starred):
+                inner = r.value.args[0].value
+                if isinstance(inner, (ast.ListComp, ast.GeneratorExp)):
+                    return ortho2(inner.elt)
+        return False
+
+    def diag_of(e: ast.AST):
+        """np.diag(f(np.diag(X))) -> (text of X, exponent) for f in {identity, sqrt, 1 / .}"""
+        if not (isinstance(e, ast.Call) and last(e) == "diag" and len(e.args) == 1):
+            return None
+
+        def inner(x):
+            if isinstance(x, ast.Call) and last(x) == "diag" and len(x.args) == 1:
+                return norm(resolve_name(x.args[0])), Fraction(1)
+            if isinstance(x, ast.Call) and last(x) == "sqrt" and len(x.args) == 1:
+                r = inner(x.args[0])
+                return None if r is None else (r[0], r[1] / 2)
+            if isinstance(x, ast.BinOp) and isinstance(x.op, ast.Div) and isinstance(x.left, ast.Constant) and x.left.value in (1, 1.0):
+                r = inner(x.right)
+                return None if r is None else (r[0], -r[1])
+            if isinstance(x, ast.BinOp) and isinstance(x.op, ast.Pow) and isinstance(x.right, ast.UnaryOp) and isinstance(x.right.op, ast.USub) \
+                    and isinstance(x.right.operand, ast.Constant):
+                r = inner(x.left)
+                return None if r is None else (r[0], -r[1] * Fraction(x.right.operand.value).limit_denominator(64))
+            if isinstance(x, ast.Call) and last(x) == "reciprocal" and len(x.args) == 1:
+                r = inner(x.args[0])
+                return None if r is None else (r[0], -r[1])
+            if isinstance(x, ast.Name) and defs.get(x.id) is not None:
+                return inner(defs[x.id])
+            return None
+        return inner(e.args[0])
+
+    def resolve_name(e: ast.AST) -> ast.AST:
+        seen = 0
+        while isinstance(e, ast.Name) and defs.get(e.id) is not None and seen < 6:
+            e = defs[e.id]
+            seen += 1
+        return e
+
+    def word(e: ast.AST, depth: int = 0):
+        if depth > 12:
+            raise Undecided("definition chain too long")
+        if isinstance(e, ast.Name):
+            if e.id == M:
+                return [("M",)]
+            if e.id in unpack:
+                src, k = unpack[e.id]
+                if isinstance(src, ast.Call) and last(src) == "schur":
+                    if k == 1:
+                        return [("O", "schur", False)]
+                    return [("W", "T", False)]
+            d_ = defs.get(e.id)
+            if d_ is not None:
+                return word(d_, depth + 1)
+            if e.id == "omega" or "symplectic_form" in e.id:
+                return [("W", "Omega", False)]
+            raise Undecided(f"free name `{e.id}`")
+        if isinstance(e, ast.Attribute) and e.attr == "real":
+            return word(e.value, depth + 1)
+        if isinstance(e, ast.Attribute) and e.attr == "T":
+            return transpose(word(e.value, depth + 1))
+        if isinstance(e, ast.BinOp) and isinstance(e.op, ast.MatMult):
+            return word(e.left, depth + 1) + word(e.right, depth + 1)
+        if isinstance(e, ast.Call):
+            nm = last(e)
+            if nm == "sqrtm" and len(e.args) == 1 and isinstance(e.args[0], ast.Name) and e.args[0].id == M:
+                return [("R", 1)]
+            if nm == "inv" and len(e.args) == 1:
+                return invert(word(e.args[0], depth + 1))
+            if nm in ("transpose",) and (len(e.args) == 1 or (isinstance(e.func, ast.Attribute) and not e.args)):
+                return transpose(word(e.args[0] if e.args else e.func.value, depth + 1))
+            if nm == "astype" and isinstance(e.func, ast.Attribute):
+                return word(e.func.value, depth + 1)
+            if nm.endswith("symplectic_form"):
+                return [("W", "Omega", False)]
+            dg = diag_of(e)
+            if dg is not None:
+                return [("D", dg[0], dg[1])]
+        if isinstance(e, ast.Subscript) and isinstance(e.slice, ast.Tuple) and len(e.slice.elts) == 2 and isinstance(e.slice.elts[0], ast.Slice) \
+                and e.slice.elts[0].lower is None and e.slice.elts[0].upper is None and isinstance(e.value, ast.Call) \
+                and helper_is_orthogonal(e.value):
+            perm = resolve_name(e.slice.elts[1])
+            if isinstance(perm, ast.Call) and (dotted(perm.func) or "").split(".")[-1].endswith("_indices"):
+                return [("O", "basis", False)]
+        if isinstance(e, ast.Call) and helper_is_orthogonal(e):
+            return [("O", "basis0", False)]
+        raise Undecided(f"`{norm(e)[:60]}`")
+
+    def transpose(w):
+        out = []
+        for a in reversed(w):
+            if a[0] in ("R", "D", "M"):
+                out.append(a)            # symmetric
+            elif a[0] == "O":
+                out.append(("O", a[1], not a[2]))
+            else:
+                out.append(("W", a[1], not a[2]))
+        return out
+
+    def invert(w):
+        out = []
+        for a in reversed(w):
+            if a[0] == "R":
+                out.append(("R", -a[1]))
+            elif a[0] == "D":
+                out.append(("D", a[1], -a[2]))
+            elif a[0] == "O":
+                out.append(("O", a[1], not a[2]))
+            else:
+                raise Undecided("inverse of an opaque factor")
+        return out
+
+    def reduce(w):
+        w = list(w)
+        changed = True
+        while changed:
+            changed = False
+            for i in range(len(w) - 1):
+                a, b = w[i], w[i + 1]
+                if a[0] == "O" and b[0] == "O" and a[1] == b[1] and a[2] != b[2]:
+                    del w[i:i + 2]
+                    changed = True
+                    break
+                if a[0] == "D" and b[0] == "D" and a[1] == b[1]:
+                    e = a[2] + b[2]
+                    w[i:i + 2] = [("D", a[1], e)] if e != 0 else []
+                    changed = True
+                    break
+                if a[0] == "R" and b[0] == "R":
+                    e = a[1] + b[1]
+                    w[i:i + 2] = [("R", e)] if e != 0 else []
+                    changed = True
+                    break
+            w = [("M",) if x == ("R", 2) else x for x in w]
+        return w
+
+    def fmt(w):
+        def one(a):
+            if a[0] == "M":
+                return "M"
+            if a[0] == "R":
+                return "M^(%s)" % Fraction(a[1], 2)
+            if a[0] == "D":
+                return f"diag({a[1]})^({a[2]})"
+            return a[1] + ("^T" if a[2] else "")
+        return " ".join(one(a) for a in w) or "I"
+
+    where = f"{ctx.relpath(fn.file)}:{(ret or fn.node).lineno}"
+    key = "williamson|S D S^T == M"
+    if ret is None or not (isinstance(ret.value, ast.Tuple) and len(ret.value.elts) == 2):
+        ctx.error("C15d: williamson does not return a pair (undecided)")
+        return
+    try:
+        S = word(ret.value.elts[0])
+        D = word(ret.value.elts[1])
+        got = reduce(S + D + transpose(S))
+    except Undecided as e:
+        ctx.error(f"C15d: {e} in williamson is outside the word fragment (undecided)")
+        return
+    ok = got == [("M",)]
+    ctx.obligation("C15d", key, ok, where, S=fmt(S), D=fmt(D), product=fmt(got))
+    if not ok:
+        ctx.violation("C15d", key, fn.file, ret.lineno,
+                      f"with S = {fmt(S)} and D = {fmt(D)} the product S D S^T reduces to `{fmt(got)}`, not to the input M (contracts used: "
+                      f"sqrtm(M)^2 = M, the Schur basis and the rotated / permuted basis change are orthogonal, diagonal exponents add)",
+                      construct=f"S = {fmt(S)}; D = {fmt(D)}")
+    diag_ok = len(D) == 1 and D[0][0] == "D"
+    ctx.obligation("C15d", "williamson|D is a diagonal matrix", diag_ok, where)
+    if not diag_ok:
+        ctx.violation("C15d", "williamson|D is a diagonal matrix", fn.file, ret.lineno, f"the second result `{fmt(D)}` is not built as np.diag(f(np.diag(X)))",
+                      construct=fmt(D))
+    # the matrix that is block-diagonalised
+    for c in ast.walk(fn.node):
+        if isinstance(c, ast.Call) and last(c) == "schur" and c.args:
+            try:
+                arg = reduce(word(c.args[0]))
+            except Undecided:
+                continue   # another spelling: not compared
+            good = arg == [("R", -1), ("W", "Omega", False), ("R", -1)]
+            ctx.obligation("C15d", "williamson|schur argument == R^-1 Omega R^-1", good, f"{ctx.relpath(fn.file)}:{c.lineno}", argument=fmt(arg))
+            if not good:
+                ctx.violation("C15d", "williamson|schur argument == R^-1 Omega R^-1", fn.file, c.lineno,
+                              f"the matrix handed to the Schur decomposition is `{fmt(arg)}`; S = M^(1/2) K D^(-1/2) is symplectic only when K "
+                              f"block-diagonalises M^(-1/2) Omega M^(-1/2)", construct=fmt(arg))
+    ctx.require_floor("C15d obligations (Williamson recomposition)", 2, 2)
